@@ -32,7 +32,7 @@ from edgegraph.builder import adjlist, adjmatrix
 from .. import engine_h, battery
 from ..fixtures_mod import NB_FILTERS, DIRS, UNKS
 from ..report import Report, HarnessError
-from ..structure import Alphabet, SWorld, apply_op, canon_world, observe, shape, inv_links
+from ..structure import Alphabet, SWorld, apply_op, canon_world, observe, shape, inv_links, memo_is_warm
 
 PROP = "C05"
 
@@ -134,7 +134,8 @@ class Sys:
             for l in v.links:
                 if w.lid(l) == "?":
                     w.l.append(l)
-            v._universes[:] = []      # the builders' universes are irrelevant here (kept out of the state)
+            for u in list(v.universes):      # the builders' universes are irrelevant here
+                v.remove_from_universe(u)
 
     def canon(self, w):
         return canon_world(w)
@@ -159,8 +160,7 @@ class Sys:
 
     def nontrivial(self, pre, op, post, obs):
         # a mutation while some memo holds an entry
-        return op[0] not in ("warm", "query", "flag", "pickle_rt") and any(
-            vars(v).get("_Vertex__qa_nb_cache") for v in pre.v)
+        return op[0] not in ("warm", "query", "flag", "pickle_rt") and any(memo_is_warm(v) for v in pre.v)
 
 
 def fingerprint(pre, op, diff):
